@@ -36,28 +36,40 @@ func (gen *generator) indexTopLevelEntities(old *ast.Module) error {
 			}
 			gen.old.comdatDefs[name] = entity
 		case *ast.GlobalDecl:
-			ident := giveUnnamedIdentID(globalIdent(entity.Name()), &id)
+			ident, err := giveUnnamedIdentID(globalIdent(entity.Name()), &id)
+			if err != nil {
+				return errors.WithStack(err)
+			}
 			if prev, ok := gen.old.globals[ident]; ok {
 				return errors.Errorf("global identifier %q already present; prev `%s`, new `%s`", ident.Ident(), text(prev), text(entity))
 			}
 			gen.old.globals[ident] = entity
 			gen.old.globalOrder = append(gen.old.globalOrder, ident)
 		case *ast.IndirectSymbolDef:
-			ident := giveUnnamedIdentID(globalIdent(entity.Name()), &id)
+			ident, err := giveUnnamedIdentID(globalIdent(entity.Name()), &id)
+			if err != nil {
+				return errors.WithStack(err)
+			}
 			if prev, ok := gen.old.globals[ident]; ok {
 				return errors.Errorf("global identifier %q already present; prev `%s`, new `%s`", ident.Ident(), text(prev), text(entity))
 			}
 			gen.old.globals[ident] = entity
 			gen.old.globalOrder = append(gen.old.globalOrder, ident)
 		case *ast.FuncDecl:
-			ident := giveUnnamedIdentID(globalIdent(entity.Header().Name()), &id)
+			ident, err := giveUnnamedIdentID(globalIdent(entity.Header().Name()), &id)
+			if err != nil {
+				return errors.WithStack(err)
+			}
 			if prev, ok := gen.old.globals[ident]; ok {
 				return errors.Errorf("global identifier %q already present; prev `%s`, new `%s`", ident.Ident(), text(prev), text(entity))
 			}
 			gen.old.globals[ident] = entity
 			gen.old.globalOrder = append(gen.old.globalOrder, ident)
 		case *ast.FuncDef:
-			ident := giveUnnamedIdentID(globalIdent(entity.Header().Name()), &id)
+			ident, err := giveUnnamedIdentID(globalIdent(entity.Header().Name()), &id)
+			if err != nil {
+				return errors.WithStack(err)
+			}
 			if prev, ok := gen.old.globals[ident]; ok {
 				return errors.Errorf("global identifier %q already present; prev `%s`, new `%s`", ident.Ident(), text(prev), text(entity))
 			}
@@ -91,14 +103,17 @@ func (gen *generator) indexTopLevelEntities(old *ast.Module) error {
 	return nil
 }
 
-// giveUnnamedIdentID assigns an unused ID to the global identifier if unnamed.
-func giveUnnamedIdentID(ident ir.GlobalIdent, id *int64) ir.GlobalIdent {
+// giveUnnamedIdentID checks that the ID of the global identifier, if unnamed,
+// is the next unused ID (unnamed globals are numbered in order of appearance),
+// and advances the counter.
+func giveUnnamedIdentID(ident ir.GlobalIdent, id *int64) (ir.GlobalIdent, error) {
 	if ident.IsUnnamed() {
-		// Assign next unused ID to unnamed global identifier.
-		ident.SetID(*id)
+		if ident.GlobalID != *id {
+			return ident, errors.Errorf("invalid global ID, expected %s, got %s", enc.GlobalID(*id), enc.GlobalID(ident.GlobalID))
+		}
 		*id++
 	}
-	return ident
+	return ident, nil
 }
 
 // === [ Create and index IR ] =================================================
